@@ -35,7 +35,7 @@ class Summary:
 class Flow:
     def __init__(self, facts, roles, reader_adt=None, read_fn=None, flags=("print_debug_info", "return_metadata"),
                  table_adt="TropicalSubgraphTable", settings_adt="TropicalSamplingSettings", follow_control=False,
-                 hash_kill=frozenset(), track_hash=False):
+                 hash_kill=frozenset(), track_hash=False, ignore_len=False):
         self.f = facts
         self.R = roles
         self.reader_adt = reader_adt
@@ -46,6 +46,7 @@ class Flow:
         self.follow_control = follow_control
         self.hash_kill = hash_kill
         self.track_hash = track_hash
+        self.ignore_len = ignore_len    # the LENGTH of a slice / Vec is not the value of any of its elements
         self.summaries = {}
         self.in_progress = set()
         self.body_deps = {}   # body.key -> (deps dict, Vals)
@@ -369,6 +370,10 @@ class Flow:
         if c and callee_is(t, trait="Rng", name=("gen", "gen_range", "gen_bool", "sample", "random")) or \
                 (c and c.get("crate") in ("rand", "rand_core") and c.get("name") in ("next_u32", "next_u64", "fill_bytes", "gen")):
             return write_place(dest, {("rng", body.key, bi)} | ctrl)
+        if self.ignore_len and c and c.get("name") in ("len", "is_empty") and c.get("crate") in ("core", "alloc", "std") and len(args) == 1:
+            st_ = c.get("impl_self") or c.get("self_ty") or c.get("path") or ""
+            if "[" in st_ or "Vec<" in st_ or "slice" in st_:
+                return write_place(dest, set(ctrl))
         # 4. indexing: element value, not the index (except for order taint)
         if c and callee_is(t, trait=("Index", "IndexMut"), name=("index", "index_mut")):
             srcs = argn[0] | ctrl
